@@ -699,7 +699,7 @@ func TestVerif_C28(t *testing.T) {
 	const max32 = 32 * 1024 * 1024
 	small := []uint32{0, 1, 8, 9, 16, 4096, 65528, max32, max32 + 1}
 	dMain := verifmc.Pick(6, 7)
-	dSide := verifmc.Pick(5, 6)
+	dSide := verifmc.Pick(4, 6)
 	top := uint32(0xffffffff)
 	cfgs := []*c28Cfg{
 		{name: "base8", heapBase: 8, sizes: small, depth: dMain},
